@@ -1155,8 +1155,12 @@ Section Conv.
     if reorder_import_items cfg && forallb (fun b => negb (contains_comment (bt b))) nodes && no_dup_names nodes []
     then sort_nodes nodes else nodes.
 
-  Definition convert_import_items (c : ctx) (nodes : list bundle) : M doc :=
-    let nodes' := import_items_order nodes in
+  (* a comment among the import's other children (may_reorder = false) pins the order too *)
+  Definition import_items_final (may_reorder : bool) (nodes : list bundle) : list bundle :=
+    if may_reorder then import_items_order nodes else nodes.
+
+  Definition convert_import_items (c : ctx) (nodes : list bundle) (may_reorder : bool) : M doc :=
+    let nodes' := import_items_final may_reorder nodes in
     l <- lst_process lst_new c nodes' (fun c child =>
            match bk child with
            | KRenamedImportItem => d <- call child (RImportItemRenamed c) ;; ret (Some d)
@@ -1191,7 +1195,7 @@ Section Conv.
         match nodes with
         | [] => ret prefix_doc
         | _ =>
-            d <- convert_import_items c nodes ;;
+            d <- convert_import_items c nodes (negb (existsb is_comment_b prefix_part)) ;;
             (* a line comment that ends the prefix keeps its line to itself *)
             let ends_with_line_comment :=
               match find (fun b => negb (kind_eqb (bk b) KSpace)) (rev prefix_part) with
